@@ -14,7 +14,45 @@ def cls_of_elem(name):
     return R.class_of(name)
 
 
-# (1) histories on an unchecked element of ANY class, children of ANY class
+_parent_of = {}
+
+
+def used_child(name, how):
+    """a child that lived in a CHECKED parent before: how = 1: added and removed again, 2: added and replaced out"""
+    if name not in _parent_of:
+        _parent_of[name] = None
+        for n in XE.__all__:
+            pc = getattr(XE, n)
+            if not (isinstance(pc, type) and issubclass(pc, XE.XMLElement)) or pc is XE.XMLElement:
+                continue
+            try:
+                if not pc.TYPE.get_xsd_tree().is_complex_type:
+                    continue
+                R.make(pc.XSD_TREE.name)
+                p = R.make(pc.XSD_TREE.name)
+                if name in (p.possible_children_names or []):
+                    p.add_child(R.make(name))
+                    _parent_of[name] = pc.XSD_TREE.name
+                    break
+            except Exception:
+                continue
+    pn = _parent_of[name]
+    c = R.make(name)
+    if pn is None:
+        return c
+    try:
+        p = R.make(pn)
+        p.add_child(c)
+        if how == 1:
+            p.remove(c)
+        else:
+            p.replace_child(c, R.make(name))
+    except Exception:
+        return R.make(name)
+    return c
+
+
+# (1) histories on an unchecked element of ANY class, children of ANY class (fresh, or used before in a checked parent)
 for case in job['unchecked']:
     res = []
     try:
@@ -32,14 +70,14 @@ for case in job['unchecked']:
             try:
                 u = e.get_children(ordered=False)
                 if op[0] == 'a':
-                    c = R.make(op[1]); c.xsd_check = False; c._vid = i; e.add_child(c)
+                    c = R.make(op[1]) if i % 3 == 0 else used_child(op[1], i % 3); c.xsd_check = False; c._vid = i; e.add_child(c)
                 elif op[0] == 'r':
                     if op[1] < len(u):
                         e.remove(u[op[1]])
                     else:
                         e.remove(XE.XMLStep('A'))
                 elif op[0] == 'p':
-                    c = R.make(op[2]); c.xsd_check = False; c._vid = i
+                    c = R.make(op[2]) if i % 3 == 0 else used_child(op[2], i % 3); c.xsd_check = False; c._vid = i
                     if op[1] < len(u):
                         e.replace_child(u[op[1]], c)
                     else:
